@@ -46,6 +46,7 @@ def run (ctx):
   ls = repo.cls(L2, 'LearningSwitch'); mod = ls.module
   h = q.find_method(repo, ls, '_handle_PacketIn', 'C11'); ctx.analysed(h)
   ev = h.params[1]
+  q.inline_attr_copies(h.node, set(h.params), keep=('packet',))      # `in_port = event.port`, `table = self.macToPort`: the rules speak of the attributes
   g = q.cfg_of(h)
   nested = q.nested_defs(h.node)
   # ---- closure summaries ----------------------------------------------------------------
@@ -88,7 +89,7 @@ def run (ctx):
   ctx.floor('flow-install send', len(inst), 1)
   for n in inst:
     fs = q.fact_strs(g, n)
-    good = ('port != %s.port' % ev) in fs or ('%s.port != port' % ev) in fs
+    good = ('port != %s.port' % ev) in fs or ('%s.port != port' % ev) in fs or ('self.macToPort[packet.dst] != %s.port' % ev) in fs or ('%s.port != self.macToPort[packet.dst]' % ev) in fs
     ctx.ob('R-DOM', h, "a flow is installed / the frame forwarded only to a port other than the ingress port", good, "dominated by port != event.port" if good else
            "the install+forward send is not guarded by `port != event.port` (facts %s): a frame can be sent back out its ingress port" % fs, (mod, n.ast), 'D2')
     good = any('in self.macToPort' in f and 'not in' not in f for f in fs)
@@ -140,10 +141,24 @@ def run (ctx):
   fl_ok = any(n in r for n in floods); in_no = not any(n in r for n in inst)
   ctx.ob('R-DOM', h, "unknown unicast destinations are flooded", (fl_ok and in_no) if (fl_ok or not in_no) else None, "flood reachable, install unreachable" if fl_ok and in_no else
          "with an empty address table: flood reachable %s, install reachable %s" % (fl_ok, not in_no), h, 'D2')
+  # the address table only learns: nothing forgets an address (no ageing in this bridge) - a forgotten address is flooded to ports where
+  # it was never seen although it had been seen as a source
+  n_forget = 0
+  for f_ in ls.methods.values():
+    for kind_, site_ in q.mutations_of_attr(f_.node, 'macToPort'):
+      shrink = (isinstance(site_, ast.Call) and call_name(site_) in ('pop', 'popitem', 'clear')) or isinstance(site_, ast.Delete) or \
+               (kind_ == 'rebind' and f_.name != '__init__')
+      n_forget += 1
+      if shrink:
+        ctx.bad('R-OWN', f_, "the address table only learns", "`%s` removes learned addresses: a frame to an address that was seen as a source is then flooded to ports where it was never seen" % norm(site_)[:70], (mod, site_), 'D2')
+  if n_forget: ctx.ok('R-OWN', ls.qual, "the address table only learns", "%d writer(s) of macToPort examined" % n_forget, ls, 'D2')
   # ---- D3 message fields ------------------------------------------------------------------------
   fl = nested.get('flood')
   if fl is not None:
-    st = dict((t.attr, norm(v)) for t, v, s_, k in q.stores_in(fl, nested=False) if isinstance(t, ast.Attribute) and norm(t.value) == 'msg' and v is not None)
+    mv_ = 'msg'       # the packet-out under construction, whatever the local is called
+    for t, v, s_, k in q.stores_in(fl, nested=False):
+      if isinstance(t, ast.Name) and isinstance(v, ast.Call) and call_name(v) == 'ofp_packet_out': mv_ = t.id
+    st = dict((t.attr, norm(v)) for t, v, s_, k in q.stores_in(fl, nested=False) if isinstance(t, ast.Attribute) and norm(t.value) == mv_ and v is not None)
     ctx.ob('R-AGREE', h.qual + '.flood', "flood packet-out names the ingress port", st.get('in_port') == ev + '.port', "msg.in_port = %s" % st.get('in_port') if st.get('in_port') else
            "flood does not set in_port: the switch cannot exclude the ingress port and the frame is echoed back", (mod, fl), 'D3')
     outs = [c for c in calls_in(fl) if call_name(c) == 'ofp_action_output']
